@@ -47,7 +47,13 @@ Definition part_of (p : rpart) : part :=
   match p with RPS s => PStr s | RPI i => PInt (Uint63.to_Z i) end.
 Definition entry_of (r : rentry) : entry :=
   let '(k, v, dt) := r in {| e_key := map part_of k; e_val := xval_of v; e_dt := dt |}.
-Definition pkind_of (i : int) : pkind := if Uint63.eqb i 0%uint63 then PKOptions else PKPackage.
+Definition pkind_of (i : int) : pkind :=
+  if Uint63.eqb i 0%uint63 then PKOptions
+  else if Uint63.eqb i 1%uint63 then PKPackage
+  else if Uint63.eqb i 2%uint63 then PKFromContext
+  else if Uint63.eqb i 3%uint63 then PKFieldFromContext
+  else if Uint63.eqb i 4%uint63 then PKFromDocument
+  else PKResolveDoc.
 
 (* ---- what the implementation returned ---- *)
 Inductive rz := RZ (z : limbs) | RZErr.          (* a (big.Int, error) pair *)
